@@ -749,7 +749,68 @@ func dischargeOne(ex *Exec, ob *Obligation, opts dischargeOpts) {
 			ob.Detail = fmt.Sprintf("VC too large (%d bytes) on path %s", len(script), q.Path)
 			return
 		}
-		best, every := raceSolvers(opts.dir, fmt.Sprintf("%s.%d", ob.Name, i), script, opts.timeoutS, opts.all)
+		// strategy 1: everything, short timeout; strategy 2: quantified
+		// hypotheses that mention specification functions absent from the goal
+		// are left out (dropping hypotheses is always sound); strategy 3:
+		// everything, full timeout.
+		short := 2
+		if opts.timeoutS < short {
+			short = opts.timeoutS
+		}
+		best, every := raceSolvers(opts.dir, fmt.Sprintf("%s.%d", ob.Name, i), script, short, opts.all)
+		if best.Verdict != "unsat" && best.Verdict != "sat" {
+			// strategies 2 and 3 run side by side: (2) leave out quantified
+			// hypotheses that mention specification functions absent from the
+			// goal; (3) of the quantified hypotheses that come from loop
+			// invariants keep only those of the clause being proved.  Dropping
+			// hypotheses is always sound.
+			type alt struct {
+				b    SolverResult
+				e    []SolverResult
+				name string
+			}
+			ch := make(chan alt, 2)
+			stop := make(chan struct{})
+			n := 0
+			if slim, dropped := relevantHyps(hyps, q.Goal); dropped > 0 {
+				n++
+				script2 := q.Decls.query(slim, q.Goal, q.Vars)
+				go func() {
+					b2, e2 := raceSolversStop(opts.dir, fmt.Sprintf("%s.%d.slim", ob.Name, i), script2, opts.timeoutS, opts.all, stop)
+					ch <- alt{b2, e2, "+slim"}
+				}()
+			}
+			label := ob.Name[strings.LastIndex(ob.Name, "@")+1:]
+			var own []*Term
+			droppedOwn := 0
+			for _, h := range hyps {
+				if tag, ok := ex.hypTags[h]; ok && tag != label && hasQuantifier(h) {
+					droppedOwn++
+					continue
+				}
+				own = append(own, h)
+			}
+			if droppedOwn > 0 {
+				n++
+				script3 := q.Decls.query(own, q.Goal, q.Vars)
+				go func() {
+					b3, e3 := raceSolversStop(opts.dir, fmt.Sprintf("%s.%d.own", ob.Name, i), script3, opts.timeoutS, opts.all, stop)
+					ch <- alt{b3, e3, "+own-clause"}
+				}()
+			}
+			for ; n > 0; n-- {
+				a := <-ch
+				if a.b.Verdict == "unsat" && best.Verdict != "unsat" {
+					best, every = a.b, a.e
+					best.Solver += a.name
+					break
+				}
+			}
+			close(stop)
+		}
+		if best.Verdict != "unsat" && best.Verdict != "sat" && opts.timeoutS > short {
+			best, every = raceSolvers(opts.dir, fmt.Sprintf("%s.%d", ob.Name, i), script, opts.timeoutS, opts.all)
+		}
 		solversUsed[best.Solver] = true
 		switch best.Verdict {
 		case "unsat":
@@ -963,4 +1024,83 @@ func (ex *Exec) computeBoxed(u *Unit, name string) {
 			return true
 		})
 	}
+}
+
+// relevantHyps drops quantified hypotheses that mention a specification
+// function (spec$...) which the goal does not mention.
+func relevantHyps(hyps []*Term, goal *Term) ([]*Term, int) {
+	gs := map[string]bool{}
+	collectSyms(goal, gs)
+	var out []*Term
+	dropped := 0
+	for _, h := range hyps {
+		if hasQuantifier(h) {
+			hs := map[string]bool{}
+			collectSyms(h, hs)
+			foreign := false
+			for k := range hs {
+				if strings.HasPrefix(k, "spec$") && !gs[k] {
+					foreign = true
+				}
+			}
+			if foreign {
+				dropped++
+				continue
+			}
+		}
+		out = append(out, h)
+	}
+	return out, dropped
+}
+
+// lemmaInstance evaluates `name(args...)`: the lemma's body with its
+// parameters replaced by the arguments.  The lemma itself is proved (for all
+// parameter values) as its own obligation, so the instance may be assumed.
+func (ex *Exec) lemmaInstance(st *State, src string, where string) *Term {
+	e, err := parseSpecExpr(src)
+	if err != nil {
+		ex.specFail("%s: cannot parse %q", where, src)
+	}
+	call, ok := e.(*ast.CallExpr)
+	if !ok {
+		ex.specFail("%s: expected lemma(args...)", where)
+	}
+	name := exprText(call.Fun)
+	l := ex.W.Lemmas[name]
+	if l == nil {
+		ex.specFail("%s: unknown lemma %q", where, name)
+	}
+	if len(call.Args) != len(l.Params) {
+		ex.specFail("%s: lemma %s takes %d arguments", where, name, len(l.Params))
+	}
+	u := ex.unitForFile(l.File)
+	ex.specDepth++
+	var args []*Val
+	for i, a := range call.Args {
+		pt := ex.parseSpecType(l.Params[i].Type, u)
+		v := ex.coerce(st, ex.materialize(ex.expr(st, a), pt), pt)
+		args = append(args, v)
+	}
+	ex.specDepth--
+	saved := map[string]*Val{}
+	for i, p := range l.Params {
+		saved[p.Name] = st.bound[p.Name]
+		st.bound[p.Name] = args[i]
+	}
+	saveNL := ex.specNoLocals
+	ex.specNoLocals = true
+	g := ex.evalSpecBool(st, l.Body, u, where+" "+name)
+	ex.specNoLocals = saveNL
+	for n, v := range saved {
+		if v == nil {
+			delete(st.bound, n)
+		} else {
+			st.bound[n] = v
+		}
+	}
+	ex.lemmasUsed[name] = true
+	if l.Axiom {
+		ex.W.Trusted["axiom (unproved): "+l.Name+": "+l.Body] = true
+	}
+	return g
 }
